@@ -99,6 +99,22 @@ def run_case(case, acc, order):
                     acc.violation(sig, core.make_record(
                         PROP, 'model', sig, case=case, op={'clusters': [nt, 2], 'count': None},
                         expected=exp[:20], observed=got[:20] if isinstance(got, list) else got), order)
+            # a selector on the model's per-template query, asked for unknown ids next to a known one
+            from phylib.io.array import SpikeSelector as _Sel
+            try:
+                sel = _Sel(get_spikes_per_cluster=m.get_template_spikes, spike_times=m.spike_samples,
+                           chunk_bounds=[0, n_raw], n_chunks_kept=1)
+                got = sorted(int(x) for x in sel(None, [0, 99, -1]))
+            except Exception as e:
+                got = repr(e)
+            exp = [i for i in range(ns) if st[i] == 0]
+            acc.step(True, 'model:selector-on-template-callback')
+            if got != exp:
+                sig = '%s/model-selector/template-callback/%s' % (
+                    PROP, 'value' if isinstance(got, list) else 'exception')
+                acc.violation(sig, core.make_record(
+                    PROP, 'model', sig, case=case, op={'clusters': [0, 99, -1], 'count': None},
+                    expected=exp[:20], observed=got[:20] if isinstance(got, list) else got), order)
         finally:
             m.close()
     acc.sample({'model_route': {'chunk': chunk, 'n_chunks': n_chunks, 'n_spikes': ns,
